@@ -4,7 +4,7 @@ import "verif/internal/vc"
 
 func init() {
 	Registry["C09"] = func(c *Ctx) {
-		c.R.Rule = "families of target states, one per boundary between adjacent components of the hashed byte stream (every split of every string of <=N chars over {a , = :}), per list separator, per permutation of <=4 inputs / <=3 outputs / <=3 dep digests / <=4 fingerprint insertions, per environment dimension; each state is hashed by the real GetTargetChangeHash / TargetHasher under xxh3 and sha256. A family is non-trivial when it contains at least two different canonical states; every distinct canonical state of such a family is counted."
+		c.R.Rule = "families of target states, one per boundary between adjacent components of the hashed byte stream (every split of every string of <=N chars over {a , = :}), per list separator, per permutation of <=4 inputs / <=3 outputs / <=3 dep digests / <=4 fingerprint insertions, per environment dimension; each state is hashed by the real GetTargetChangeHash / TargetHasher under xxh3 and sha256. A family is non-trivial when it contains at least two different canonical states; every distinct canonical state of such a family is counted. Inputs that are symbolic links (both of two adjacent inputs / the first one) in the file-boundary families. The output hash of a no-cache target (Registry.GetNoCacheOutputHash, the registry's own locks as scheduling points) under every completion order of its hash tasks. Whatever order the writers of WriteOutputs finished in, the stored result passes the validation that loading applies."
 		c.R.Assume("a collision counts only if it reproduces under both xxh3 and sha256 (encoding collision, not hash accident)", "canonical state = (label, command, set of (input path, content|missing), sorted declared outputs, sorted dep digests, fingerprint entries, platform unless multiplatform-cache)")
 		ov := vc.NewOverlay()
 		if err := exportOutputHash(ov); err != nil {
